@@ -117,8 +117,8 @@ PROPS = {}
 PROPS['C06'] = {
     'level': 'model_checking',
     'technique': 'explicit-state BFS over the real GenericArrayIter (replayed operation histories, canonical (origin, front, len) state key) against VecDeque and [T;N]::into_iter() reference models',
-    'parts': [engine_part('iter-bfs', 'e_iter', 'C06', shards_quick=4, shards_thorough=NCPU, asan='quick', miri=True, miri_args=['--maxn', '3'])],
-    'rule': ("BFS from GenericArray::into_iter() for every K in 0..=8 (thorough: also 9..=17, 31..=33 complete, 64, 100 and 255..=257 with the argument lattice "
+    'parts': [engine_part('iter-bfs', 'e_iter', 'C06', shards_quick=8, shards_thorough=NCPU, asan='quick', asan_args=['--maxn', '8'], miri=True, miri_args=['--maxn', '3'])],
+    'rule': ("BFS from GenericArray::into_iter() for every K in 0..=12 (thorough: also 13..=17, 31..=33 complete, 64, 100 and 255..=257 with the argument lattice "
              "{0,1,2,len-1,len,len+1,usize::MAX}) and element sizes 0/4/24 bytes; from every reachable state (origin fresh|clone-at-len, physical front index, len) every operation "
              "next, next_back, nth(k), nth_back(k) for k in 0..=len+2 and usize::MAX, clone, as_mut_slice()[j]=new for every j, plus the consuming operations fold, rfold, count, last, collect, "
              "rev().collect, Debug, {:#?}, drop, exhaustion (fused), clone-then-drop; a case is one (state, operation); non-trivial = K>0 and the state still holds an element; "
